@@ -12,7 +12,7 @@ import re
 from fractions import Fraction
 
 from analysis import (Prov, Guards, fmt, fmt_short, walk, roots, short, comparison, linear, _lin_add, const_int_of,
-                      callee_matches, transparent_args, cast_is_lossless, canon, subst_expr)
+                      callee_matches, transparent_args, cast_is_lossless, canon, subst_expr, slice_span)
 
 INT_RANGES = {"u8": (0, 2 ** 8 - 1), "u16": (0, 2 ** 16 - 1), "u32": (0, 2 ** 32 - 1), "u64": (0, 2 ** 64 - 1), "usize": (0, 2 ** 64 - 1),
               "i32": (-2 ** 31, 2 ** 31 - 1), "i64": (-2 ** 63, 2 ** 63 - 1), "isize": (-2 ** 63, 2 ** 63 - 1)}
@@ -286,6 +286,13 @@ class Aff:
                     iv_ = linear(x[2])
                     if iv_ is not None and not iv_[0]:
                         name = "%s[%d]" % (fmt_short(x[1]), iv_[1])
+                        # an element of a sub-slice is an element of the slice it was cut from (`s.split_at(34).0[32]` is `s[32]`)
+                        try:
+                            base0, st0, _en0 = slice_span(x[1])
+                        except Exception:
+                            base0, st0 = None, None
+                        if base0 is not None and st0 is not None and not st0[0] and canon(base0) != canon(x[1]):
+                            name = "%s[%d]" % (fmt_short(base0), st0[1] + iv_[1])
                 a = "byte:" + name
                 self.atom_ranges[a] = (0, 255)
                 return a
